@@ -115,6 +115,8 @@ class Uids:
             return ["E", self.n - 1]
         if isinstance(v, (list, tuple)) and v and v[0] in ("t", "l", "it"):
             return [v[0], [self.fix(x) for x in v[1]]]
+        if isinstance(v, (list, tuple)) and v and v[0] == "d":
+            return ["d", [[k, self.fix(x)] for k, x in v[1]]]
         return list(v) if isinstance(v, tuple) else v
 
 
@@ -166,7 +168,11 @@ def base_case(draw, name, max_len=8, max_src=4, steps="full", min_len=0, min_src
     profile = draw(st.sampled_from(tool.profiles))
     if profile == "tuples":
         arity = draw(st.integers(0, 3))
-        elem = st.lists(K, min_size=arity, max_size=arity).map(lambda xs: ["t", xs])
+        # an argument "tuple" may be any iterable of arguments - a dict, too: f(*d) gets its KEYS
+        elem = st.one_of(st.lists(K, min_size=arity, max_size=arity).map(lambda xs: ["t", xs]),
+                         st.lists(K, min_size=arity, max_size=arity).map(lambda xs: ["t", xs]),
+                         st.lists(K, min_size=arity, max_size=arity).map(
+                             lambda xs: ["d", [[f"k{j}", x] for j, x in enumerate(xs)]]))
     else:
         elem = PROFILES[profile]
     srcs = []
